@@ -89,7 +89,7 @@ def derive_seed(seed, *parts):
 
 
 # ---------------- Hypothesis driver ----------------
-def hyp_run(pid, strategy, evaluate, seed, max_examples, ev, shrink_cap=120):
+def hyp_run(pid, strategy, evaluate, seed, max_examples, ev, shrink_cap=12):
     """Run `evaluate(case, ev) -> Fail|None` over generated cases. Known findings are excluded (counted) and the
     search continues. Returns the minimal unknown Fail or None."""
     from hypothesis import given, settings, seed as hseed, HealthCheck, Phase
